@@ -14,7 +14,7 @@ import json
 from typing import Any, Dict, List, Optional, Tuple
 
 from .. import tlc
-from ..common import Verdict, rng, use_repo
+from ..common import Verdict, rng, seed, use_repo
 from ..fakes import StepLoop
 
 use_repo()
@@ -620,6 +620,62 @@ def switch_traces(tier: str) -> List[dict]:
     return out
 
 
+def tlc_behaviours(n: int, depth: int, seed: int) -> List[dict]:
+    """spec -> code: behaviours of Device.tla on the deployment GenD, generated by TLC's simulator (each state carries the
+    operation taken), are replayed operation by operation on real drivers built from the same deployment; the recorded traces are
+    then validated like all others.  (A model `task` step runs one pending handler, a real loop iteration runs all of them: a
+    run of `task` steps becomes one `tick`.)"""
+    import glob
+    import os
+    import shutil
+    from ..tlaparse import parse_simulation_file
+    wd = tlc.scratch_dir("simdev-")
+    try:
+        res = tlc.run_tlc("MC_Device", "MC_Device_sim.cfg", workers=1, timeout=1800, workdir=wd,
+                          extra=["-simulate", f"file={wd}/beh,num={n}", "-depth", str(depth), "-seed", str(seed + 1)])
+        tlc.require_ok(res, "Device simulation")
+        if res.violated:
+            raise tlc.MachineryError("simulation of Device.tla violates " + str(res.violated))
+        out = []
+        for f in sorted(glob.glob(os.path.join(wd, "beh_*"))):
+            steps = parse_simulation_file(f)
+            if not steps:
+                continue
+            d = steps[0][2]["dep"]
+            dep = {"vecs": [dict(x) for x in d["vecs"]], "grps": [dict(x) for x in d["grps"]], "hs": [dict(x) for x in d["hs"]],
+                   "devorder": list(d["devorder"]), "val0": [list(x) for x in d["val0"]], "vst0": list(d["vst0"]),
+                   "ven0": list(d["ven0"]), "gen0": list(d["gen0"])}
+            for vv in dep["vecs"]:
+                vv["elems"], vv["een"] = list(vv["elems"]), list(vv["een"])
+            ops: List[dict] = []
+            for _, _, st in steps[1:]:
+                o = dict(st["op"])
+                if o["o"] == "task":
+                    if not ops or ops[-1]["o"] != "tick":
+                        ops.append({"o": "tick"})
+                    continue
+                if o["o"] == "sel":
+                    o["v"], o["names"] = 2, sorted(o["names"])
+                if o["o"] == "new":
+                    vi = next((i for i, vv in enumerate(dep["vecs"], start=1) if vv["name"] == o["n"] and (o["t"] in (NONE, vv["dev"]))), 0)
+                    kind = dep["vecs"][vi - 1]["kind"] if vi else "text"
+                    fits = {"text": lambda x: True, "light": lambda x: True, "number": lambda x: x in NUM, "switch": lambda x: x in ("On", "Off"),
+                            "blob": lambda x: x in BLOBS}[kind]
+                    ch = []
+                    for c in o["ch"]:
+                        okc = (bool(c[2]) and fits(c[1])) or kind == "text"          # a text element takes any string
+                        # an inconvertible child of a switch / light is recorded with the text the element is actually handed
+                        ch.append([c[0], c[1] if okc or kind not in ("switch", "light") else "not convertible", okc])
+                    o["ch"] = ch
+                    o["kind"] = kind if kind in ("number", "switch", "blob") else "text"
+                    o["fmts"] = {}
+                ops.append(o)
+            out.append((dep, ops))
+        return out
+    finally:
+        shutil.rmtree(wd, ignore_errors=True)
+
+
 def model_check(v: Verdict, prop: str, tier: str) -> None:
     jobs = [("MC_Device_switch.cfg", "switch")] if prop == "C09" else [("MC_Device_gen.cfg" if tier == "quick" else "MC_Device_gen3.cfg", "general")]
     for cfg, label in jobs:
@@ -661,6 +717,15 @@ def run(prop: str, tier: str) -> int:
             traces.append(run_trace(dep, lambda w, dep=dep: random_ops(r, dep, r.randint(8, 30), w)))
         except DeploymentBroken as e:
             v.violation(str(e), {"kind": "deployment", "what": str(e)})
+    if prop != "C09":
+        nb = 0
+        for dep, ops in tlc_behaviours(40 if tier == "quick" else 600, 14, seed()):
+            try:
+                traces.append(run_trace(dep, lambda w, ops=ops: ops))
+                nb += 1
+            except DeploymentBroken as e:
+                v.violation(str(e), {"kind": "deployment", "what": str(e)})
+        v.notes["tlc_simulated_behaviours_replayed"] = nb
     for ti, t in enumerate(traces):
         for i, e in enumerate(t["ev"]):
             v.evaluations += 1
@@ -679,6 +744,12 @@ def run(prop: str, tier: str) -> int:
     v.notes["trace_validation"] = {"traces": len(traces), "rejected_by_model": len(mrej), "rejected_by_contract": len(crej),
                                    "model_drift_only": len(drift), "tlc_states": dist + cdist}
     if drift:
+        from ..common import REPLAY_DIR
+        import os
+        os.makedirs(REPLAY_DIR, exist_ok=True)
+        dt = drift[0].trace
+        json.dump({"replay": {"kind": "device-trace", "dep": dt["dep"], "ops": [{k: e[k] for k in e if k != "obs"} for e in dt["ev"]],
+                              "rejected_step": drift[0].matched}}, open(os.path.join(REPLAY_DIR, f"drift-{prop}.json"), "w"))
         print(f"NOTE: {len(drift)} traces are no longer explained step by step by Device.tla although every property holds on the observed "
               f"states (implementation changed shape; first: trace {drift[0].index} step #{drift[0].matched + 1}); not a violation")
     by_model = {x.index: x for x in mrej}
